@@ -590,12 +590,12 @@ def run(ctx):
         # is filled, shrunk and refilled while both sides run
         for a, b in model.pairs():
             if route(a, b) == "stream" and any(x.endswith((".Get", ".GetNext")) for x in (a, b)):
-                add(a, b, 1500 if quick else 4000, "sweep", fill=2500)
+                add(a, b, 1500 if quick else 3000, "sweep", fill=2500)
         # every operation that can overlap with FSM.Apply again, with the state machine walking ONE session
         # through its whole life (client and services link) while the other side uses that very session
         for a, b in model.pairs():
             if "FSM.Apply" in (a, b) and route(a, b) == "main":
-                add(a, b, 150 if quick else 600, "sweep", focus=True)
+                add(a, b, 150 if quick else 250, "sweep", focus=True)
         allp = [p for p in rest if route(*p) == "main"]
         rng = random.Random(ctx.seed)
         rng.shuffle(allp)
